@@ -240,7 +240,12 @@ def check_model(schema, trail, ways, out, label):
         try:
             sdl = supply(schema, way, extend, tmp)
             try:
-                engine = harness.build_engine(schema, sdl=sdl, resolvers=set(), name=name)
+                # every other engine completes sibling fields and list items one after the other (the engine-wide options): what
+                # introspection describes does not depend on them
+                seq = out["counts"]["engines"] % 2 == 1
+                kw = {"coerce_parent_concurrently": False, "coerce_list_concurrently": False} if seq else {}
+                engine = harness.build_engine(schema, sdl=sdl, resolvers=set(), name=name, **kw)
+                out["counts"]["sequential_engines"] = out["counts"].get("sequential_engines", 0) + (1 if seq else 0)
             except Exception as e:  # noqa
                 out["violations"].append(_v("engine-not-built", "build", trail, "%s [%s%s]: %r" % (label, way, "+extend" if extend else "", e), schema, way, extend))
                 continue
